@@ -241,6 +241,47 @@ def run_impl(cfgd, ops):
     return pgm.read_file(fn), raised, float(G.dwell_time)
 
 
+def run_impl2(cfgd, ops1, ops2):
+    """one compiler object, two files: `with G: ops1`, then (the public attribute filename re-assigned) `with G: ops2`"""
+    for fn in ('c03a.pgm', 'c03b.pgm'):
+        if os.path.exists(fn):
+            os.remove(fn)
+    raised = 0
+    with pgm.quiet():
+        G = pgm.make_compiler(cfgd, 'c03a.pgm')
+        try:
+            with G:
+                interp(G, ops1)
+        except (ValueError, FileNotFoundError, pgm.UserBoom, pgm.UserAbort):
+            pass
+        G.filename = 'c03b.pgm'
+        try:
+            with G:
+                interp(G, ops2)
+        except (ValueError, FileNotFoundError, pgm.UserBoom, pgm.UserAbort) as e:
+            raised = pgm.EXC_KIND[type(e).__name__]
+    return pgm.read_file('c03b.pgm'), raised, float(G.dwell_time)
+
+
+def gen_reuse(rng, tier):
+    for _ in range(40 if tier == 'quick' else 500):
+        cfgd = pgm.gen_cfg(rng, allow_bad_laser=False)
+        v = rng.choice(VARS)
+        loop = lambda: ['for', v, rng.choice([1, 2, 3]), [['dwell', rng.choice(pgm.PAUSES)]] + ([['write', closed_path(rng)]] if rng.random() < 0.4 else [])]
+        k = rng.random()
+        if k < 0.3:        # declared and used in the first file, used again in the second without a declaration of its own
+            ops1, ops2 = [['dvar', [v]], loop()], [loop()]
+        elif k < 0.6:      # ... declared again
+            ops1, ops2 = [['dvar', [v]], loop()], [['dvar', [v.upper() if rng.random() < 0.3 else v]], loop()]
+        elif k < 0.8:
+            ops1 = gen_ops(rng, depth=2, budget=[6])
+            ops2 = gen_ops(rng, depth=2, budget=[6])
+        else:              # the first session ends with an exception raised by user code
+            ops1 = insert_raise(gen_ops(rng, depth=2, budget=[5]), rng.randint(0, 2))
+            ops2 = [['dvar', [v]], loop()] if rng.random() < 0.5 else gen_ops(rng, depth=1, budget=[4])
+        yield cfgd, ops1, ops2
+
+
 # ---------------------------------------------------------------------------------------------
 # rendering for the model
 
@@ -299,9 +340,9 @@ def ops_lit(ops, it):
     return clist(op_lit(o, it) for o in ops)
 
 
-def case_literal(cfgd, ops, text, raised, dwell):
+def case_literal(cfgd, ops, text, raised, dwell, it=None):
     tm = pgm.t_matrix_of(cfgd)
-    it = lexer.Interner()
+    it = it or lexer.Interner()
     toks = lexer.lex(text, it) if text is not None else []
     return ('{| k_cfg := %s; k_ops := %s; k_toks := %s; k_written := %s; k_raised := %s; k_dwell := %s |}' % (
         pgm.cfg_literal(cfgd, tm), ops_lit(ops, it), lexer.toks_literal(toks), cb(text is not None), cn(raised),
@@ -403,7 +444,20 @@ def run_for(prop: str, rep: common.Report, tier: str, seed: int):
         hist['exceptions'][raised] = hist['exceptions'].get(raised, 0) + 1
         hist['written'] += text is not None
         kinds(ops)
+    # one compiler object writing two files: the second file is judged like any other
+    n_single = len(cases)
+    lits2 = []
+    rng2 = common.rng_for(seed, 'C03', 'reuse')
+    for cfgd, ops1, ops2 in gen_reuse(rng2, tier):
+        text, raised, dwell = run_impl2(cfgd, ops1, ops2)
+        it = lexer.Interner()
+        first = ops_lit(ops1, it)
+        cases.append({'stream': 'second-file-of-one-compiler', 'cfg': cfgd, 'ops': ops2, 'first_session': ops1})
+        lits2.append('{| k2_first := %s; k2 := %s |}' % (first, case_literal(cfgd, ops2, text, raised, dwell, it)))
+        hist['streams']['second-file-of-one-compiler'] = hist['streams'].get('second-file-of-one-compiler', 0) + 1
     fails = common.run_model(prop, 'Harness.C03', 'C03.case', 'C03.failing', lits, shard=40, extra_imports=IMPORTS)
+    fails2 = common.run_model(prop, 'Harness.C03', 'C03.case2', 'C03.failing2', lits2, shard=40, extra_imports=IMPORTS, tag='reuse')
+    fails = list(fails) + [(n_single + i, code) for i, code in fails2]
     for idx, code in fails:
         which = [NAMES[k] for k in range(len(NAMES)) if code >> k & 1]
         c = cases[idx]
@@ -488,6 +542,14 @@ def run(rep, tier, seed):
 def replay(data, prop='C03'):
     c = data['input']
     common.fresh_cwd(prop)
+    if 'first_session' in c:
+        text, raised, dwell = run_impl2(c['cfg'], c['first_session'], c['ops'])
+        it = lexer.Interner()
+        first = ops_lit(c['first_session'], it)
+        lit = '{| k2_first := %s; k2 := %s |}' % (first, case_literal(c['cfg'], c['ops'], text, raised, dwell, it))
+        fails = common.run_model(prop, 'Harness.C03', 'C03.case2', 'C03.failing2', [lit], tag='replay', extra_imports=IMPORTS)
+        print('replay:', 'FAILS' if fails else 'passes', fails)
+        return 1 if fails else 0
     text, raised, dwell = run_impl(c['cfg'], c['ops'])
     lit = case_literal(c['cfg'], c['ops'], text, raised, dwell)
     fails = common.run_model(prop, 'Harness.C03', 'C03.case', 'C03.failing', [lit], tag='replay', extra_imports=IMPORTS)
